@@ -46,6 +46,7 @@ func verifLoadLocked(eventlog, delays string, seed int64) {
 		}
 	}
 	verifState.delays = map[string]verifDelay{}
+	verifBarrierLoad(delays)
 	for _, item := range strings.Split(delays, ",") {
 		kv := strings.SplitN(strings.TrimSpace(item), "=", 2)
 		if len(kv) != 2 {
@@ -102,6 +103,7 @@ func verifPoint(name string) {
 		}
 	}
 	verifState.Unlock()
+	verifBarrierWait(name)
 	if sleep > 0 {
 		time.Sleep(sleep)
 	}
